@@ -135,6 +135,8 @@ struct ItemResp {
     derives: Vec<String>,
     rewrites: BTreeMap<String, u32>,
     missing_anchors: Vec<u32>,
+    /// anchor id -> block nesting depth at which the hint was placed
+    anchor_depths: BTreeMap<u32, u32>,
     /// normalised token text of the original item (for pins / change detection)
     orig_norm: String,
 }
@@ -626,6 +628,17 @@ impl<'a> VisitMut for Rw<'a> {
             }
         }
         visit_mut::visit_local_mut(self, l);
+    }
+
+    fn visit_item_const_mut(&mut self, c: &mut ItemConst) {
+        // a `const NAME: &T = ..;` inside a function body: the elided lifetime is 'static (Verus' macro wants it spelled out)
+        if let Type::Reference(r) = &mut *c.ty {
+            if r.lifetime.is_none() {
+                r.lifetime = Some(parse_quote!('static));
+                self.bump("A6.const_static_lifetime");
+            }
+        }
+        visit_mut::visit_item_const_mut(self, c);
     }
 
     fn visit_expr_struct_mut(&mut self, st: &mut ExprStruct) {
@@ -1715,6 +1728,9 @@ struct Marker {
     kinds: Vec<String>,
     anchors: Vec<Anchor>,
     found: BTreeMap<u32, usize>,
+    /// block nesting depth while visiting, and the depth at which each anchor was placed (part of the function's SHAPE)
+    depth: u32,
+    placed_depth: BTreeMap<u32, u32>,
 }
 
 fn mac_stmt(name: &str, arg: Option<u32>) -> Stmt {
@@ -1753,6 +1769,7 @@ impl Marker {
 impl VisitMut for Marker {
     fn visit_block_mut(&mut self, b: &mut Block) {
         // anchors: match statements of this block
+        self.depth += 1;
         let mut out: Vec<Stmt> = Vec::new();
         for mut s in std::mem::take(&mut b.stmts) {
             let t = tnorm(&s);
@@ -1766,6 +1783,7 @@ impl VisitMut for Marker {
                     let this = *c;
                     *c += 1;
                     if a.nth.unwrap_or(0) == this {
+                        self.placed_depth.insert(a.id, self.depth);
                         if a.pos == "before" {
                             before.push(a.id);
                         } else {
@@ -1787,6 +1805,7 @@ impl VisitMut for Marker {
             }
         }
         b.stmts = out;
+        self.depth -= 1;
     }
     fn visit_expr_mut(&mut self, e: &mut Expr) {
         if !self.do_loops {
@@ -2073,7 +2092,7 @@ fn do_fn(items: &[Item], req: &ItemReq, feats: &[String]) -> std::result::Result
     let mut counts: BTreeMap<String, u32> = BTreeMap::new();
 
     // pass A: anchors and pinned replacements on the ORIGINAL statements
-    let mut am = Marker { do_loops: false, next_loop: 0, kinds: vec![], anchors: req.anchors.clone(), found: BTreeMap::new() };
+    let mut am = Marker { do_loops: false, next_loop: 0, kinds: vec![], anchors: req.anchors.clone(), found: BTreeMap::new(), depth: 0, placed_depth: BTreeMap::new() };
     am.visit_block_mut(&mut block);
     let mut rp = Replacer {
         stmt: req.replace_stmt.iter().cloned().map(|r| (r, 0)).collect(),
@@ -2112,10 +2131,13 @@ fn do_fn(items: &[Item], req: &ItemReq, feats: &[String]) -> std::result::Result
         // pass B: anchors and pins that were not found before may sit in an inlined helper body now
         let missing_a: Vec<Anchor> = req.anchors.iter().filter(|a| am.found.get(&a.id).copied().unwrap_or(0) == 0).cloned().collect();
         if !missing_a.is_empty() {
-            let mut am2 = Marker { do_loops: false, next_loop: 0, kinds: vec![], anchors: missing_a, found: BTreeMap::new() };
+            let mut am2 = Marker { do_loops: false, next_loop: 0, kinds: vec![], anchors: missing_a, found: BTreeMap::new(), depth: 100, placed_depth: BTreeMap::new() };
             am2.visit_block_mut(&mut block);
             for (k, v) in am2.found {
                 am.found.insert(k, v);
+            }
+            for (k, v) in am2.placed_depth {
+                am.placed_depth.insert(k, v);
             }
         }
         let miss_s: Vec<(Replace, u32)> = rp.stmt.iter().filter(|x| x.1 == 0).cloned().collect();
@@ -2226,7 +2248,7 @@ fn do_fn(items: &[Item], req: &ItemReq, feats: &[String]) -> std::result::Result
         }
         rw.counts.insert("R18.arms_abstracted".to_string(), ka.n);
     }
-    let mut mk = Marker { do_loops: true, next_loop: 0, kinds: vec![], anchors: vec![], found: BTreeMap::new() };
+    let mut mk = Marker { do_loops: true, next_loop: 0, kinds: vec![], anchors: vec![], found: BTreeMap::new(), depth: 0, placed_depth: BTreeMap::new() };
     mk.visit_block_mut(&mut block);
     let mut missing = Vec::new();
     for a in &req.anchors {
@@ -2322,6 +2344,7 @@ fn do_fn(items: &[Item], req: &ItemReq, feats: &[String]) -> std::result::Result
         derives: vec![],
         rewrites: rw.counts,
         missing_anchors: missing,
+        anchor_depths: am.placed_depth.clone(),
         orig_norm,
     })
 }
